@@ -123,7 +123,13 @@ def DashIt.step (s : DashIt K) : Option (Option (PathEl K) × DashIt K) :=
     | none => none
     | some d => some (res, { s with dash_ix := ix, dash_remaining := d })
   else
-    let res : Option (PathEl K) := if s.is_active then some (segToEl (s.current_seg.subsegment ⟨s.t, (1 : K)⟩)) else none
+    let (res, s) : Option (PathEl K) × DashIt K :=
+      if s.is_active then
+        let el := segToEl (s.current_seg.subsegment ⟨s.t, (1 : K)⟩)
+        -- `get_input` appends `ClosePath` to the stash when the sub-path ends here without a dash break; this segment goes
+        -- before that (repair 7127469)
+        if s.state == .ToStash then (none, { s with stash := s.stash.push el }) else (some el, s)
+      else (none, s)
     let s := { s with dash_remaining := s.dash_remaining - s.seg_remaining }
     some (res, s.get_input)
 
